@@ -720,6 +720,27 @@ func cmdCheck(args []string) {
 					reproduced = true
 				}
 			}
+			if !reproduced && !strings.HasPrefix(v.Label, "lockset:") {
+				// other explored paths violating the same label: spread over the alternates, at most 6 tries
+				step := len(v.Alternates)/6 + 1
+				for ai := len(v.Alternates) - 1; ai >= 0 && !reproduced; ai -= step {
+					af, _, araw, aerr := nb.run(entryName, params, v.Alternates[ai])
+					if aerr != nil {
+						break
+					}
+					for _, f := range af {
+						if labelsMatch(f, v.Label) {
+							reproduced = true
+						}
+					}
+					if reproduced {
+						nfails, raw = af, araw
+						doc.Inputs = v.Alternates[ai]
+						b, _ := json.MarshalIndent(doc, "", " ")
+						os.WriteFile(rpath, b, 0o644)
+					}
+				}
+			}
 			if strings.HasPrefix(v.Label, "lockset:") {
 				// a lockset finding is confirmed natively by the entry's companion
 				// "<Fn>Race" witness under the race detector
